@@ -64,6 +64,7 @@ def F(*xs):
 
 
 class StatUniverse(eng_gen.Universe):
+    ALLOW_CUSTOM = False     # the statistics driver predates the python modifiers; FueledArmorRepair is CmUnsupported
 
     def gen(self):
         super().gen()
